@@ -75,6 +75,10 @@ type c08Scenario struct {
 	// storage so slow that a heartbeat leaves the lock file empty for Gap between truncate and write
 	Gap time.Duration `json:"gap_ns,omitempty"`
 	Tol time.Duration `json:"tol_ns,omitempty"` // time tolerance of the comparison, default c08Tol
+	// SlowRemove: these child processes (pid -> delay) run under `strace -e inject=unlinkat:delay_enter=...`:
+	// their os.Remove calls take effect that much later (widens the window between a waiter's staleness
+	// judgement and its removal of the lock file)
+	SlowRemove map[int]time.Duration `json:"slow_remove_ns,omitempty"`
 	// Trace: the child processes run under strace; their system calls on the lock file are compared
 	// with the model's steps (case kind 2)
 	Trace bool `json:"trace,omitempty"`
@@ -298,6 +302,9 @@ func c08Run(tmproot string, sc c08Scenario) (*c08Result, error) {
 		if sc.Gap > 0 {
 			cmd = exec.Command("strace", "-f", "-o", "/dev/null", "-e", "trace=ftruncate", "-e",
 				fmt.Sprintf("inject=ftruncate:delay_exit=%d", sc.Gap.Microseconds()), os.Args[0], "C08", "child", "0", dir, string(b))
+		} else if d := sc.SlowRemove[th.Pid]; d > 0 {
+			cmd = exec.Command("strace", "-f", "-o", "/dev/null", "-e", "trace=unlink,unlinkat", "-e",
+				fmt.Sprintf("inject=unlink,unlinkat:delay_enter=%d", d.Microseconds()), os.Args[0], "C08", "child", "0", dir, string(b))
 		} else if sc.Trace {
 			cmd = exec.Command("strace", "-f", "-o", filepath.Join(dir, fmt.Sprintf("trace.%d", th.Pid)), "-e",
 				"trace=openat,open,creat,read,write,ftruncate,truncate,fsync,fdatasync,close,unlink,unlinkat,rename,renameat,renameat2",
@@ -696,7 +703,19 @@ func c08Emit(w *emit.Writer, res *c08Result) {
 		if sc.Tol > 0 {
 			tol = sc.Tol
 		}
-		e.Z(mh).Z(int64(tol)).Z(int64(c08Jit)).Z(int64(sc.Gap)).Len(len(obs))
+		e.Z(mh).Z(int64(tol)).Z(int64(c08Jit)).Z(int64(sc.Gap))
+		var slow []int
+		for pid := range sc.SlowRemove {
+			if pids[pid] {
+				slow = append(slow, pid)
+			}
+		}
+		sort.Ints(slow)
+		e.Len(len(slow))
+		for _, pid := range slow {
+			e.Int(pid).Z(int64(sc.SlowRemove[pid]))
+		}
+		e.Len(len(obs))
 		for _, o := range obs {
 			e.Int(o.Tid).Int(o.Outcome).Z(o.Ret)
 		}
@@ -927,6 +946,12 @@ func c08Scenarios(tier string, r *rand.Rand) []c08Scenario {
 		{Name: "long-hold-after-empty-takeover", Class: "empty-prefile", Pre: c08PreFile{Kind: "empty"},
 			Threads: []c08Thread{{Tid: 0, Name: n, StartAt: c08ms(200), HoldFor: c08ms(12500), CancelAt: long}, {Tid: 1, Name: n, StartAt: c08ms(3100), HoldFor: c08ms(200), CancelAt: long}},
 			Horizon: c08ms(16500)},
+		// the documented race after a crash: waiter 1 (slow unlink: 600 ms) judges the dead holder's file
+		// stale; before its os.Remove takes place waiter 0 has removed the file, created its own and holds;
+		// the late os.Remove deletes waiter 0's live lock file and waiter 1 holds too (known finding C08-stale-race)
+		{Name: "stale-race-after-crash", Class: "stale-race", Pre: c08PreFile{Kind: "meta", CreatedAge: c08ms(90000), UpdatedAge: c08ms(40000)},
+			Threads: []c08Thread{{Tid: 0, Pid: 1, Name: n, StartAt: c08ms(500), HoldFor: c08ms(2000), CancelAt: long}, {Tid: 1, Pid: 2, Name: n, StartAt: c08ms(250), HoldFor: c08ms(500), CancelAt: long}},
+			SlowRemove: map[int]time.Duration{2: c08ms(600)}, Horizon: c08ms(4500)},
 		{Name: "empty-file-then-release", Class: "empty-prefile", Pre: c08PreFile{Kind: "empty"},
 			Threads: []c08Thread{{Tid: 0, Name: n, StartAt: c08ms(100), HoldFor: c08ms(1000), CancelAt: long}, {Tid: 1, Name: n, StartAt: c08ms(300), HoldFor: c08ms(100), CancelAt: long}},
 			Horizon: c08ms(5000)},
